@@ -48,9 +48,10 @@ class Ctx:
             seen.add((o.cfg, o.key))
             counts[o.rule] = counts.get(o.rule, 0) + 1
         for rule, n in floors.items():
-            # a behaviour-preserving merge of duplicated code may lower a count a little; a rule that lost
-            # a third of its instances has lost its anchors
-            n = max(1, (n * 7) // 10)
+            # a behaviour-preserving merge of duplicated code (both drivers through one helper) can halve a count; a
+            # rule family that lost more than half of its instances has lost its anchors (each rule also checks its
+            # own anchors and fails closed when one is missing)
+            n = max(1, n // 2)
             if counts.get(rule, 0) < n:
                 self.rep.add([anchor_ob(rule, "instances %d < floor %d" % (counts.get(rule, 0), n),
                                         "rule matched fewer sites than were confirmed by hand")])
